@@ -50,6 +50,15 @@ FIXED_COMMITS = {"K-catch-pop": "790993c", "K-stale-error-ip-a": "26bae81", "K-s
 # ---- other properties: (property, id, status, commit, title, scenario dict)
 from sim.props import c09, c15, c12, c01, c16
 OTHER = [
+ ("C01", "K-bound-native-reclaimed-during-its-call", "fixed", "96e4f8c",
+  "call_value() kept the bound method borrowed while the callee ran: a bound built-in method reachable only through the callee's stack slot (returned by a function and called at once) was reclaimed by a collection during the call and the borrow guard's drop wrote into freed memory (dev builds: panic 'RefCell already mutably borrowed')",
+  {"ir": {"gadgets": [["op", 37, 1000, "global"]], "reset": False}, "gc_tape": "ff" * 64, "gc_rate": 2}),
+ ("C01", "K-bound-method-reclaimed-during-arity-error", "fixed", "96e4f8c",
+  "same for a bound method called with the wrong number of arguments: raising the TypeError allocates while the bound method is still borrowed",
+  {"ir": {"gadgets": [["failop", 14, 1000]], "reset": False}, "gc_tape": "ff" * 64, "gc_rate": 2}),
+ ("C01", "K-instance-reclaimed-during-field-call", "fixed", "96e4f8c",
+  "invoke() kept a temporary instance borrowed while the callable stored in one of its fields ran",
+  {"ir": {"gadgets": [["op", 40, 1000, "global"]], "reset": False}, "gc_tape": "ff" * 64, "gc_rate": 2}),
  ("C01", "K-unwind-leaves-captured-variables-open", "fixed", "0143da8",
   "exception unwinding cut the stack back without closing open captured variables: a closure created in a try block (or callee) left by an exception pointed at a slot the collector no longer traced (use after reclaim) or that later pushes overwrote",
   {"ir": {"gadgets": [["chain", "capture_in_scope_left_by_exception", ["closed_capture"], "vec", 1050, 0]], "reset": False}, "gc_tape": "ff" * 64, "gc_rate": 2}),
